@@ -506,6 +506,16 @@ class History:
         self.entry_set_changed = True
         self.add(live)
         self.after_step([live], normalised=[live] if ccls == "omitted" else [])
+        if rng.random() < 0.5 and m.size:
+            # the caller goes on using the same counts / mapping objects for a second construction,
+            # leaving the common value to the library
+            kw2 = {k: v for k, v in kw.items() if k != "common"}
+            self.log("from_array", shape=shape, common="omitted", mapping=mcls, counts="counts" in kw, reused_options=True)
+            x2 = iindex.from_array(m.copy(), **kw2)
+            live2 = Live(x2, model.copy(), "from_array")
+            self.add(live2)
+            self.after_step([live2], normalised=[live2])
+            self.ctx.count("from_array:options_reused")
         return True
 
     def op_shift_common(self):
@@ -769,8 +779,12 @@ class History:
         universe = list(dict.fromkeys([mapped(v) for v in present] + [mapped(int(r.x.common))] + self.vals + [-2, max(self.vals) + 3]))
         k = int(rng.integers(1, len(universe) + 1))
         prec = [int(universe[int(i)]) for i in rng.choice(len(universe), size=k, replace=False)]
+        if mp is not None and rng.random() < 0.5:
+            mp.pop(int(r.x.common), None)       # a mapping that does not mention the common value
+            mapped = lambda v: mp.get(v, v)
         snap = monitors.snapshot(r.x)
         psnap = list(prec)
+        mpsnap = None if mp is None else dict(mp)
         self.log("collapsed", precedence=prec, mapping=mp, omits_present=any(mapped(v) not in prec for v in present),
                  has_negative=any(p < 0 for p in prec))
         res = r.x.collapsed(prec, mp) if mp is not None else r.x.collapsed(prec)
@@ -786,6 +800,8 @@ class History:
         self.unchanged(snap, r.x, "collapsed(receiver)")
         if prec != psnap:
             self.violation("operand-mutated:collapsed-precedence", "collapsed changed its precedence list")
+        if mp is not None and mp != mpsnap and self.aspect == "C06":
+            self.violation("operand-mutated:collapsed-mapping", "collapsed changed its mapping argument: %r -> %r" % (mpsnap, mp))
         self.entry_set_changed = True
         self.common_changed = True
         self.add(live)
